@@ -27,6 +27,12 @@ struct Op {
     static bool parse(const std::string& line, Op& out);
 };
 
+// keygen: op.b packs the key size the caller asks for, where the caller's key buffer lies, and a 'huge' multiplier
+static inline size_t keygen_base(u64 b) { size_t n = (size_t)((b & 0xFFFF) % 4097); return n ? n : 1; }
+static inline size_t keygen_off(u64 b) { return (size_t)((b >> 16) & 7); }                                   // misalignment of the key buffer
+static inline size_t keygen_size(u64 b) { return keygen_base(b) + ((size_t)((b >> 20) & 3) << 32); }        // what polyseed_keygen is told
+static inline size_t keygen_buf(u64 b) { return ((b >> 20) & 3) ? 8192 : keygen_base(b); }                  // what the KDF stub fills (it caps at 8192)
+
 struct Quantum { int task; u32 edges; };
 
 struct Plan {
